@@ -62,6 +62,10 @@ pub enum SOp {
     Read,
     Drain,
     CacheCheck,
+    /// take a snapshot (dump_data()) and keep it
+    SnapTake,
+    /// iterate the snapshot taken earlier: must yield the entries live when it was taken
+    SnapIter,
 }
 
 impl SOp {
@@ -75,6 +79,8 @@ impl SOp {
             SOp::Read => "R".into(),
             SOp::Drain => "E".into(),
             SOp::CacheCheck => "S".into(),
+            SOp::SnapTake => "Ks".into(),
+            SOp::SnapIter => "Ki".into(),
         }
     }
 }
@@ -221,6 +227,8 @@ pub fn sop_to_json(o: &SOp) -> Value {
         SOp::Read => json!({"op":"R"}),
         SOp::Drain => json!({"op":"E"}),
         SOp::CacheCheck => json!({"op":"S"}),
+        SOp::SnapTake => json!({"op":"Ks"}),
+        SOp::SnapIter => json!({"op":"Ki"}),
     }
 }
 
@@ -233,6 +241,8 @@ pub fn sop_from_json(v: &Value) -> SOp {
         "R" => SOp::Read,
         "E" => SOp::Drain,
         "S" => SOp::CacheCheck,
+        "Ks" => SOp::SnapTake,
+        "Ki" => SOp::SnapIter,
         _ => SOp::W(crate::seqx::op_from_json(v)),
     }
 }
@@ -272,6 +282,7 @@ fn caller_body(spec: HistSpec, pl: Arc<Plan>, dir: String, acks: Arc<AckLog>, ou
     let mut g = StoreGuard { rl: Some(rl), inst };
     let mut next_flush = 0u64;
     let mut boundary_before_last_op: Option<LogId> = None;
+    let mut snapshot: Option<(raft_log::DumpRaftLog<crate::vt::VT>, Vec<(LogId, String)>)> = None;
     for (i, op) in spec.hist.iter().enumerate() {
         let gatek = match op {
             SOp::WaitAck => OpGate::WaitAck(pl.wait_targets[&i]),
@@ -284,7 +295,7 @@ fn caller_body(spec: HistSpec, pl: Arc<Plan>, dir: String, acks: Arc<AckLog>, ou
             _ => 0,
         };
         sched::op_gate(&op.short(), gatek, bits);
-        if matches!(op, SOp::Read) {
+        if matches!(op, SOp::Read | SOp::SnapIter | SOp::SnapTake) {
             sched::set_extra_bits(sched::R_CACHE);
         }
         sched::push_event(Event::OpStart { tid: 0, idx: i });
@@ -327,6 +338,45 @@ fn caller_body(spec: HistSpec, pl: Arc<Plan>, dir: String, acks: Arc<AckLog>, ou
                 rl.drain_cache_evictable();
                 (true, String::new())
             }
+            SOp::SnapTake => {
+                snapshot = Some((rl.dump_data(), pl.models[i].all()));
+                (true, String::new())
+            }
+            SOp::SnapIter => match snapshot.as_mut() {
+                None => (true, String::new()),
+                Some((snap, want)) => {
+                    let r = std::panic::catch_unwind(std::panic::AssertUnwindSafe(|| {
+                        let mut v = vec![];
+                        for item in snap.iter() {
+                            match item {
+                                Ok(x) => v.push(x),
+                                Err(e) => return (v, Some(format!("Err({:?}): {}", e.kind(), e))),
+                            }
+                        }
+                        (v, None)
+                    }));
+                    let (got, err) = match r {
+                        Ok(x) => x,
+                        Err(p) => (vec![], Some(format!("PANIC: {}", crate::sut::panic_msg(p)))),
+                    };
+                    if err.is_some() || got != *want {
+                        let what = format!("iterating the snapshot taken earlier gives {:?} then {:?}; entries live when it was taken: {:?}", got, err, want);
+                        if spec.o_c07 && !faults_possible {
+                            let hist_ops: Vec<Op> = spec.hist[..i].iter().filter_map(|o| if let SOp::W(w) = o { Some(w.clone()) } else { None }).collect();
+                            let f3 = crate::seqx::reappended_below_highwater(&hist_ops);
+                            let at = if err.is_some() { want.get(got.len()).map(|e| e.0) } else { None };
+                            let key = match at {
+                                Some(id) if f3.contains(&id) => "F3:read-error-on-entry-reappended-below-truncated-id",
+                                _ => "snapshot-iteration-fails-or-differs",
+                            };
+                            sched::push_violation(svio(&spec, key, format!("op {}: {}", i, what), json!({"op_index": i})));
+                        }
+                        (false, what)
+                    } else {
+                        (true, String::new())
+                    }
+                }
+            },
             SOp::CacheCheck => {
                 let (resident, boundary, items, size) = rl.verif_cache_resident();
                 let st = rl.stat();
@@ -636,6 +686,14 @@ pub fn explore_history(spec: &HistSpec, vios: &mut Vec<Violation>, stats: &mut S
             return Err(Machinery(format!("a managed thread did not park within the timeout: {} | history [{}]", h, shist_short(&spec.hist))));
         }
         if let Some(d) = &dfs.divergence {
+            if spec.lock_window {
+                // lock-window runs depend on a kernel-blocked thread being noticed in
+                // time; on an overloaded machine a replay can diverge. That ends the
+                // exploration of this history (reported as a cap), it is no verdict.
+                stats.caps_hit += 1;
+                stats.outcome("lock-window-exploration-aborted-by-timing");
+                break;
+            }
             return Err(Machinery(format!("nondeterminism while replaying a schedule prefix: {} | history [{}]", d, shist_short(&spec.hist))));
         }
         if first {
@@ -643,6 +701,11 @@ pub fn explore_history(spec: &HistSpec, vios: &mut Vec<Violation>, stats: &mut S
             let sig = trace_signature(&res);
             let mut rp = sched::Replay { schedule: dfs.schedule(), divergence: None, max_faults: spec.max_faults, fault_policy: spec.fault_policy };
             let (res2, _, _, _) = run_once(spec, &pl, &mut rp, faults_possible);
+            if spec.lock_window && (rp.divergence.is_some() || trace_signature(&res2) != sig) {
+                stats.caps_hit += 1;
+                stats.outcome("lock-window-exploration-aborted-by-timing");
+                break;
+            }
             if rp.divergence.is_some() || trace_signature(&res2) != sig {
                 let a = trace_lines(&res);
                 let b = trace_lines(&res2);
@@ -973,7 +1036,7 @@ fn recover(spec: &HistSpec, files: &[(String, Vec<u8>)], ctx: &mut HistCtx, stat
 /// F5 mechanism, computed from the image alone: some chunk file ends (in
 /// complete records) before the offset its successor starts at, i.e. the
 /// successor was created by a rotation whose old tail never reached the disk.
-fn image_has_rotation_gap(files: &[(String, Vec<u8>)]) -> bool {
+fn image_has_rotation_gap(files: &[(String, Vec<u8>)], pl: &Plan) -> bool {
     let mut v: Vec<(u64, usize)> = vec![];
     for (n, b) in files {
         if !n.ends_with(".wal") {
@@ -985,7 +1048,14 @@ fn image_has_rotation_gap(files: &[(String, Vec<u8>)]) -> bool {
         v.push((off, *bounds.last().unwrap()));
     }
     v.sort();
-    v.windows(2).any(|w| w[0].0 + (w[0].1 as u64) < w[1].0)
+    // F5 is about a chunk whose own TAIL is missing: the bytes between the end
+    // of its complete records and its successor's offset belong to that same
+    // chunk. If a whole chunk file is missing in between (a chunk of the
+    // predicted journal starts inside the hole) it is a different defect.
+    // (start of the chunk before the hole, end of its complete records, successor's offset)
+    let gaps: Vec<(u64, u64, u64)> =
+        v.windows(2).filter(|w| w[0].0 + (w[0].1 as u64) < w[1].0).map(|w| (w[0].0, w[0].0 + w[0].1 as u64, w[1].0)).collect();
+    !gaps.is_empty() && gaps.iter().all(|(p0, e, s)| !pl.heads.iter().any(|h| h.0 > *p0 && h.0 >= *e && h.0 < *s))
 }
 
 #[allow(clippy::too_many_arguments)]
@@ -1191,7 +1261,7 @@ fn judge_image(
             Opened::Err(e) => {
                 stats.outcome("recovery-refused");
                 if spec.o_c05 {
-                    let key = if e.contains("Gap between chunks") && image_has_rotation_gap(img) {
+                    let key = if e.contains("Gap between chunks") && image_has_rotation_gap(img, pl) {
                         "F5:gap-before-chunk-created-by-unfinished-rotation"
                     } else {
                         "recovery-refused"
@@ -1451,6 +1521,8 @@ pub enum Sym {
     R,
     E,
     S,
+    Ks,
+    Ki,
 }
 
 /// Instantiates a symbol at the current model state (None: not applicable).
@@ -1498,6 +1570,8 @@ pub fn instantiate(sym: Sym, m: &RefLog, outstanding_flushes: usize, waited: usi
         Sym::R => Some(SOp::Read),
         Sym::E => Some(SOp::Drain),
         Sym::S => Some(SOp::CacheCheck),
+        Sym::Ks => Some(SOp::SnapTake),
+        Sym::Ki => Some(SOp::SnapIter),
     }
 }
 
